@@ -97,6 +97,46 @@ def parse(payload):
     return res
 
 
+_noopt_installed = False
+
+
+def install_noopt():
+    """Swap in a non-optimising _parse_sub: it calls the real _parse for every alternative and only omits the two
+    rewrites that hide syntax (a|b -> [ab], common-prefix hoisting).  Pins the shape of the private API."""
+    global _noopt_installed
+    if _noopt_installed:
+        return
+    p, c = _parser()
+    import inspect
+    src = inspect.getsource(p._parse_sub)
+    if "def _parse_sub(source, state, verbose, nested)" not in src or "_parse(source, state, verbose, nested + 1" not in src:
+        raise RuntimeError("re._parser._parse_sub does not have the expected shape; refusing to patch")
+
+    def _parse_sub(source, state, verbose, nested):
+        items = []
+        while True:
+            items.append(p._parse(source, state, verbose, nested + 1, not nested and not items))
+            if not source.match("|"):
+                break
+            if not nested:
+                verbose = state.flags & c.SRE_FLAG_VERBOSE
+        if len(items) == 1:
+            return items[0]
+        subpattern = p.SubPattern(state)
+        subpattern.append((c.BRANCH, (None, items)))
+        return subpattern
+
+    p._parse_sub = _parse_sub
+    _noopt_installed = True
+
+
+@task
+def parse_noopt(payload):
+    """like parse, with the non-optimising alternation parser (DESIGN 3.5)"""
+    install_noopt()
+    return parse(payload)
+
+
 @task
 def category_ranges(payload):
     """Exact code-point sets of the Unicode-aware shorthands, as CPython's re matches them."""
@@ -185,8 +225,24 @@ def match_at(payload):
     return out
 
 
+def serve():
+    for line in sys.stdin:
+        line = line.strip()
+        if not line:
+            continue
+        try:
+            req = json.loads(line)
+            res = {"result": TASKS[req["task"]](req.get("payload"))}
+        except Exception:
+            res = {"error": traceback.format_exc()}
+        sys.stdout.write(json.dumps(res, ensure_ascii=True) + "\n")
+        sys.stdout.flush()
+
+
 def main():
     name = sys.argv[1]
+    if name == "--serve":
+        return serve()
     payload = json.loads(sys.stdin.read() or "null")
     try:
         res = TASKS[name](payload)
